@@ -31,6 +31,7 @@ None == [k |-> 0, tp |-> {}, exp |-> 0]
 VARIABLES
     cfg,      \* the configuration (constant along a behaviour)
     bad,      \* rejected puts so far: <<number of puts before it, clock, why>>
+    pq,       \* the ring shape before the last operation, and that operation (see View)
     buf,      \* function 0..cap-1 -> entry (None = zero value)
     cap,      \* len(q.buf)
     head, tail, count,
@@ -41,7 +42,7 @@ VARIABLES
     gone,     \* abstract: number of log entries that were evicted / collected
     hist      \* history of operations (generation only)
 
-vars == <<cfg, bad, buf, cap, head, tail, count, nextID, now, lastGC, log, gone, hist>>
+vars == <<cfg, bad, pq, buf, cap, head, tail, count, nextID, now, lastGC, log, gone, hist>>
 
 Kind == cfg.kind
 N    == cfg.n
@@ -51,14 +52,19 @@ GCI  == cfg.gci
 
 \* The history is an observation, and so are the topics and expiry times of log entries that left the
 \* ring (the retained ones are in buf, see RingIsLog): two histories reaching the same replayer state
-\* are explored once, TLC's breadth-first search keeping a shortest one.
-View == <<cfg, bad, buf, cap, head, tail, count, nextID, now, lastGC, Len(log), gone>>
+\* through the same kind of last step are explored once, TLC's breadth-first search keeping a shortest
+\* one.  pq (shape before the last operation + the operation) is part of the view so that every
+\* distinct *transition* of the ring is exported, not only every distinct state: an implementation slip
+\* in one operation (say, a collection whose expired run wraps around the end of the buffer) shows
+\* right after that operation, whatever shorter history leads to the same state.
+View == <<cfg, bad, pq, buf, cap, head, tail, count, nextID, now, lastGC, Len(log), gone>>
+Shape(op) == <<head, tail, count, cap, op>>
 
 Min(a, b) == IF a < b THEN a ELSE b
 Max(a, b) == IF a > b THEN a ELSE b
 
 Init ==
-    /\ cfg \in Configs /\ bad = <<>>
+    /\ cfg \in Configs /\ bad = <<>> /\ pq = <<0, 0, 0, 0, "init">>
     /\ cap = IF Kind = "finite" THEN N ELSE 0
     /\ buf = [i \in 0..(cap - 1) |-> None]
     /\ head = 0 /\ tail = 0 /\ count = 0
@@ -218,12 +224,14 @@ PutOK(tp) ==
                      ELSE gone
           /\ nextID' = IF Auto THEN nextID + 1 ELSE nextID
           /\ hist' = Rec([op |-> "put", tp |-> tp, res |-> "ok", k |-> Len(log) + 1])
+    /\ pq' = Shape("put")
     /\ UNCHANGED <<cfg, bad, now>>
 
 \* a rejected Put: "notopic" (no topics), "idmismatch" (manual without ID / automatic with ID)
 PutBad(why) ==
     /\ Len(bad) < MaxBad
     /\ bad' = Append(bad, <<Len(log), now, why>>)
+    /\ pq' = Shape(why)
     /\ IF Kind = "valid" /\ why = "idmismatch"
        THEN \* the collection runs before the ID check
             LET didGC == GCI > 0 /\ lastGC >= 0 /\ now - lastGC >= GCI
@@ -237,13 +245,13 @@ PutBad(why) ==
 
 Tick(d) ==
     /\ Kind = "valid" /\ now + d <= MaxNow
-    /\ now' = now + d
+    /\ now' = now + d /\ pq' = Shape("tick")
     /\ hist' = Rec([op |-> "tick", tp |-> {}, res |-> "", k |-> d])
     /\ UNCHANGED <<cfg, bad, buf, cap, head, tail, count, nextID, lastGC, log, gone>>
 
 GC ==
     /\ Kind = "valid"
-    /\ SetQ(DoGC(Q, now))
+    /\ SetQ(DoGC(Q, now)) /\ pq' = Shape("gc")
     /\ gone' = Max(gone, Cardinality({j \in 1..Len(log) : ~(log[j].exp > now)}))
     /\ hist' = Rec([op |-> "gc", tp |-> {}, res |-> "", k |-> 0])
     /\ UNCHANGED <<cfg, bad, nextID, now, lastGC, log>>
